@@ -328,6 +328,30 @@ def lazyUses (singular : Name → Option Name) (c : Cls) : Nat → LazyState →
     let rest := lazyUses singular c n r.1
     (rest.1, r.2 :: rest.2)
 
+/-! ## inheritance chains
+
+A class derived from a decorated class starts from a copy of that class's
+`__spec_class__.attrs` (`SpecClassMetadata.for_class`): names, types and the
+CURRENT item names, whoever registered them and however many levels up. An
+undecorated class in between hands them through unchanged. -/
+
+/-- what a class derived from a decorated class inherits from it -/
+def inheritedOf (d : Decorated) : List Inherited :=
+  d.attrs.map (fun a => ⟨a.name, a.kind, a.item⟩)
+
+/-- a linear chain of spec classes decorated root first: every class inherits the
+attributes of the one before it (the `inherited` field of the descriptions is
+overwritten). Any depth. -/
+def decorateChain (singular : Name → Option Name) : List Inherited → List Cls → Except Err (List Decorated)
+  | _, [] => .ok []
+  | inh, c :: cs =>
+    match decorate singular { c with inherited := inh } with
+    | .error e => .error e
+    | .ok d =>
+      match decorateChain singular (inheritedOf d) cs with
+      | .error e => .error e
+      | .ok ds => .ok (d :: ds)
+
 /-! ## the spec-class parent -/
 
 /-- helper names the parent registered for the attributes the child does not
